@@ -1,4 +1,5 @@
 import AffVerif.Proofs.IterLemmas
+import AffVerif.Proofs.BfsLemmas
 /-!
 # C13 — traversals and tree metrics are exact for every shape and start node
 
@@ -89,6 +90,27 @@ theorem C13_size_hint_dfs (whole start : ITree β) (hsub : start.size ≤ whole.
   ⟨Dfs.inv_new whole start hsub hroot, fun s s' it h hn => Dfs.inv_next s s' it h hn, fun s h => Dfs.inv_skip s h,
    fun s h => by rw [refStack_noskip_length]; exact ⟨h.1, h.2.1⟩⟩
 
+/-- breadth-first traversal started at any node: the level-order reference list of that node's sub-tree (levels by
+    repeated expansion, children by ascending label, the children of the items marked in the schedule omitted) -/
+theorem C13_bfs_run (sk : Nat → Nat) (whole start : ITree β) :
+    (BfsM.run sk start.size (BfsM.new whole start) 0).map (·.1) = start.refBfs sk := by
+  have := bfs_run_eq_ref sk (start.size + 1) 0 [(start, 0)] start.size 0 0
+    (if start.idx = whole.idx then whole.size else 0) whole.size (by simp [forestSize]) (by simp [forestSize])
+  simpa [BfsM.new, qOf, ITree.refBfs] using this
+
+/-- `size_hint` of the breadth-first and of the edge traversal: the bounds bracket the number of items still to come
+    (sum of the sizes of the pending sub-trees) in every reachable state, skips included -/
+theorem C13_size_hint_bfs_edge (whole start : ITree β) (hsub : start.size ≤ whole.size)
+    (hroot : start.idx = whole.idx → start.size = whole.size) :
+    ((BfsM.new whole start).Inv ∧
+      (∀ (s s' : BfsM β) (it : Item), BfsM.Inv s → s.next = some (it, s') → BfsM.Inv s') ∧
+      (∀ s : BfsM β, BfsM.Inv s → BfsM.Inv s.skip)) ∧
+    ((DfsE.new whole start).Inv ∧
+      (∀ (s s' : DfsE β) (it : EItem), DfsE.Inv s → s.next = some (it, s') → DfsE.Inv s') ∧
+      (∀ s : DfsE β, DfsE.Inv s → DfsE.Inv s.skip)) :=
+  ⟨⟨BfsM.inv_new whole start hsub hroot, fun s s' it h hn => BfsM.inv_next s s' it h hn, fun s h => BfsM.inv_skip s h⟩,
+   ⟨DfsE.inv_new whole start hsub hroot, fun s s' it h hn => DfsE.inv_next s s' it h hn, fun s h => DfsE.inv_skip s h⟩⟩
+
 /-! non-vacuity: a five-node tree, traversal from the root with a skip after the second item -/
 def exTree : ITree Nat :=
   .node 0 0 (.cons (some (.node 1 0 (.cons (some (.node 3 0 (.cons none (.cons none .nil))))
@@ -96,6 +118,9 @@ def exTree : ITree Nat :=
             (.cons (some (.node 2 0 (.cons none (.cons none .nil)))) .nil))
 
 example : (Dfs.run (fun k => if k = 1 then 2 else 0) exTree.size (Dfs.new exTree exTree) 0).map (·.1.idx) = [0, 1, 2] := by
+  decide
+
+example : (BfsM.run (fun k => if k = 1 then 1 else 0) exTree.size (BfsM.new exTree exTree) 0).map (·.1.idx) = [0, 1, 2] := by
   decide
 
 end AV
